@@ -3,7 +3,7 @@ import os, sys, time
 from . import core
 
 
-GENERATED = [("c03", "C03Chain")]
+GENERATED = [("c03", "C03Chain"), ("c06", "C06Table")]
 
 
 def harness_names():
